@@ -75,7 +75,8 @@ def trackOK (s : State) (t : Track) : Bool :=
   (match t.marks.getLast? with | some p => p.2 == t.free | none => true) &&
   (!t.hasMark .cancelled || !t.free) && (!t.hasMark .forced || t.nForced) &&
   (t.hasMark .cmdSet == t.cmd.isSome) &&
-  (!(t.hasMark .started || t.hasMark .completed || t.hasMark .failed) || t.hasMark .cmdSet) &&
+  -- (Failed without a start: the request's arguments were rejected)
+  (!(t.hasMark .started || t.hasMark .completed) || t.hasMark .cmdSet) &&
   (match t.cmd with
    | none => true
    | some ser =>
